@@ -225,6 +225,19 @@ def _snap_checks(ex):
         elif hook == "_post_attach":
             if s[ix[n]][0] != p or not s[ix[p]][1] or s[ix[p]][1][-1] != n:
                 return "_post_attach(%s) does not see %s as the last child of %s" % (n, n, p)
+        elif hook == "_pre_detach_children":
+            if tuple(s[ix[n]][1]) != tuple(p):
+                return "_pre_detach_children(%s) is not given the children %s still has" % (n, n)
+        elif hook == "_post_detach_children":
+            # the bracket closes after ALL former children were detached (it wraps the per-child calls)
+            if s[ix[n]][1]:
+                return "_post_detach_children(%s) fired while %s still has children %r" % (n, n, s[ix[n]][1])
+        elif hook == "_pre_attach_children":
+            if s[ix[n]][1]:
+                return "_pre_attach_children(%s) fired while former children are still attached" % n
+        elif hook == "_post_attach_children":
+            if tuple(s[ix[n]][1]) != tuple(p):
+                return "_post_attach_children(%s) fired although the children of %s are not the assigned ones" % (n, n)
     return None
 
 
@@ -275,7 +288,7 @@ JUDGES = {"c01": judge_c01, "c02": judge_c02, "c03": judge_c03, "c16": judge_c16
 
 
 def explore(kind, n, cfg, hidden, states, d, persistent, judge, snap=False, extra=None, only_pre_first=False, flavour="plain",
-            two_step=None):
+            two_step=None, reenter=False):
     t = core.Tally()
     forest.FAULT_FLAVOUR[0] = flavour
     if two_step:
@@ -297,9 +310,13 @@ def explore(kind, n, cfg, hidden, states, d, persistent, judge, snap=False, extr
         t.c["states"] += 1
         for op in ops:
             t.c["transitions"] += 1
-            for ex in forest.runs(kind, n, witness, state, op, d, persistent, snap, want):
+            menu = [("setp", x, None) for x in forest.LABELS[:n]] if reenter else None
+            for ex in forest.runs(kind, n, witness, state, op, d, persistent, snap, want, menu):
                 t.c["executions"] += 1
-                t.c["exec_d%d%s" % (len(ex.raise_at), "p" if ex.persist else "")] += 1
+                if ex.raise_at and ex.raise_at[0] == "reenter":
+                    t.c["exec_reentrant_hook"] += 1
+                else:
+                    t.c["exec_d%d%s" % (len(ex.raise_at), "p" if ex.persist else "")] += 1
                 if len(ex.log) > t.c["max_hooks_per_run"]:
                     t.c["max_hooks_per_run"] = len(ex.log)
                 core.guard(t, judge.upper() if isinstance(judge, str) else "E1", forest.case_of(ex, witness), jf, t, ex, witness, extra)
@@ -377,7 +394,7 @@ def run_configs(configs, log=print):
                                                  d=c["d"], persistent=tuple(c.get("persistent", ())), judge=c["judge"],
                                                  snap=c.get("snap", False), extra=c.get("extra"),
                                                  only_pre_first=c.get("only_pre_first", False), flavour=c.get("flavour", "plain"),
-                                                 two_step=c.get("two_step")))
+                                                 two_step=c.get("two_step"), reenter=c.get("reenter", False)))
                     for s in shards
                 ]
                 t = core.Tally()
